@@ -4,6 +4,27 @@ import "verif/checker/internal/core"
 
 func init() {
 	register(&Prop{
+		ID:    "C14",
+		Rules: []*Rule{rProtocol, rWrapDual, rWalkMulti, rForward},
+		Explain: "Decides the structural side of drop-in compatibility: the library probes exactly the standard protocol methods (Is/As/Unwrap/Unwrap []error/Cause) with their exact signatures and precedence; every library wrapper implements both Cause() and Unwrap() over the same field so stdlib and pkg/errors traverse library chains; Is/As recurse into multi-cause branches in order; the root API forwards to the right implementation with parameters in order. " +
+			"NOT decided: differential agreement with errors.Is/As/pkg-errors.Cause on all inputs.",
+		Trusted: []string{"go/ssa", "the standard library's own Is/As/Unwrap semantics"},
+	})
+	register(&Prop{
+		ID:    "C13",
+		Rules: []*Rule{rWalkMulti, rWrapDual},
+		Explain: "Decides that every tree walker (Is, IsAny, As, formatter, report visitor, encoder) applies itself to each branch of every chain node's UnwrapMulti in forward order, and that multi-cause types are leaves for Unwrap/UnwrapOnce. " +
+			"NOT decided: 'exactly when' (no false positives of the search), Join dropping nils / nil result, Error() = newline-joined branch texts.",
+		Trusted: []string{"go/ssa"},
+	})
+	register(&Prop{
+		ID:    "C09",
+		Rules: []*Rule{rFmtDelegate, rShape, rDetailPrint},
+		Explain: "Decides the code-level reasons the verbs are mutually consistent: every instantiated library type routes Format through the single dispatcher FormatError; Error() and the detail formatter of each type agree on the message shape (so %v/%s = Error() at every depth); each wrapper's annotation fields reach a Print inside the detail region. " +
+			"NOT decided: width/precision/flag rendering (delegated to fmt), entry numbering/indentation and the 'Error types' line (loop arithmetic over runtime lists), comparison with reference renderings.",
+		Trusted: []string{"go/ssa", "fmt and redact formatting semantics"},
+	})
+	register(&Prop{
 		ID: "C08",
 		Rules: []*Rule{rCmpGuard, {Name: "R-BOUNDS", Doc: rBounds.Doc + " (restricted to package markers: equalMarks' lock-step indexing is also the 'difference in chain length makes them different' clause)",
 			Run: func(c *core.Ctx) {
@@ -22,7 +43,7 @@ func init() {
 	})
 	register(&Prop{
 		ID:    "C10",
-		Rules: []*Rule{rNil},
+		Rules: []*Rule{rNil, rShape, rWrapDual},
 		Explain: "Decides the nil clauses of the property for every exported constructor on every path (nilness abstract interpretation, no execution). " +
 			"NOT decided: equality of Error() strings with the compositional model, 'Join of only nils = nil' (a count over runtime arguments).",
 		Trusted: []string{"go/ssa", "nilness lattice with branch refinement; unknown callees are Top"},
